@@ -2,6 +2,7 @@ package main
 
 import (
 	"fmt"
+	"strings"
 
 	"hmsverif/internal/hs"
 )
@@ -94,6 +95,14 @@ func init() {
 		for _, f := range semanticFamilies {
 			c.Scenarios = append(c.Scenarios, f.scenario(c02Oracle))
 		}
+		// every program of the limit family under every limit triple: crash/wedge oracle only
+		c.Scenarios = append(c.Scenarios, Scenario{Name: "resource-limit-lattice", Count: func(string) int { return c09Count() }, Run: func(tier string, idx int, r *Result) {
+			r.failFilter = func(class string) bool {
+				return strings.HasPrefix(class, "HOST-PANIC") || strings.HasPrefix(class, "HANG") || strings.HasPrefix(class, "DEADLOCK") || strings.HasPrefix(class, "HARNESS")
+			}
+			c09Run(tier, idx, r)
+			r.failFilter = nil
+		}})
 		return c
 	})
 	register("C04", func() *Check {
